@@ -56,6 +56,19 @@ def run(ctx):
             preds.append((txt, prp.parse('{' + txt + '}')))
         except Exception:
             rejects += 1
+    # stacks of 1..4 leading `not` (and nots around / inside connectives): negate() has its own rule for a negated root
+    for _ in range(n // 4):
+        r = g.expr(BOOL, depth=rng.randrange(1, 3))
+        k = rng.randrange(1, 5)
+        for _ in range(k):
+            r = ('un', 'not', r)
+        if rng.random() < 0.3:
+            r = ('bin', rng.choice(['and', 'or', 'implies']), r, ('un', 'not', ('un', 'not', g.expr(BOOL, depth=1))))
+        try:
+            txt = render(r, rng, 'min')
+            preds.append((txt, prp.parse('{' + txt + '}')))
+        except Exception:
+            rejects += 1
     for _ in range(n // 2):
         r = g.expr(rng.choice([BOOL, NUM]), depth=rng.randrange(1, 4))
         try:
